@@ -43,7 +43,7 @@ ASSUME MechanismRestores(HistLen)
 ASSUME \A n \in DOMAIN ErrProgs : ErrProgs[n] \subseteq Kinds
 ASSUME JsonSerialize(IOEnv.OUT_FILE,
          [kinds |-> [i \in 1..Cardinality(Kinds) |-> KindRec(SetToSeq(Kinds)[i])],
-          stmt_slots |-> SetToSeq(StmtSlots),
+          stmt_slots |-> SetToSeq(StmtSlots), store_slots |-> SetToSeq(StoreSlots),
           full |-> [i \in 1..Len(Full) |-> Rec(Full[i])],
           deeper |-> [i \in 1..Len(Deeper) |-> Rec(Deeper[i])],
           errprogs |-> [i \in 1..Len(ErrNames) |->
